@@ -33,10 +33,9 @@ fn options_push_back(options: &mut BTreeMap<u16, VecDeque<Vec<u8>>>, n: u16, v: 
     u.rule('R4:entry-or_default-push_back',
            r'options\s*\.entry\(([^()]*)\)\s*\.or_default\(\)\s*\.push_back\(([^()]*)\);',
            r'options_push_back(&mut options, \1, \2);', 1)
-    u.rule('R12:unreachable', r'_ => unreachable!\(\),',
-           '_ => { proof { let x = self.ver_type_tkl; assert((0x30 & x) >> 4 <= 3) by (bit_vector); } unreachable!() }', 1)
+    u.rule('R12:unreachable', r'_ => unreachable!\(\),', '_ => { unreachable!() }', 1)
     u.contract(('impl Header', 'set_token_length'), '        requires tkl < 16', props=['C01'])
-    u.body_start(('impl Header', 'set_token_length'), '        proof { assert(tkl < 16 ==> 0xF0 & tkl == 0) by (bit_vector); }')
+    common.header_bit_hints(u, 'impl Header', fns=('set_token_length', 'get_type'))
 
     # ---- the decoder contract: taken from C03's statement -------------------------------------
     u.contract(FROM_BYTES, '''        requires buf.len() <= isize::MAX
